@@ -11,6 +11,7 @@ mod round5;
 mod round6;
 mod round7;
 mod round8;
+mod round9;
 mod alloc;
 mod cases;
 mod exec;
@@ -722,6 +723,12 @@ fn cases_for(prop: &str, tier: &str, seed: u64, out: &mut Out) {
                     out.verdict(&id, &format!("scenario custom-rejected {}", kind), round3::oracle_custom_rejected(kind));
                 }
                 extra::cases_dbf_c10(tier, &mut stats, out);
+                for base in ["Point", "Polyline"] {
+                    for (n_good, n_batch) in [(1usize, 1usize), (2, 3)] {
+                        let id = out.oracle_only_id();
+                        out.verdict(&id, &format!("scenario batch-rejected {} {} {}", base, n_good, n_batch), extra::oracle_batch_rejected(base, n_good, n_batch));
+                    }
+                }
                 for n in [0usize, 1, 2, 5] {
                     let id = out.oracle_only_id();
                     out.verdict(&id, &format!("scenario write-shapes-rejected {}", n), round4::oracle_write_shapes_rejected(n));
@@ -940,6 +947,14 @@ fn cases_for(prop: &str, tier: &str, seed: u64, out: &mut Out) {
             for c in 32..64 {
                 codes.push(c);
             }
+            {
+                let mut bare: Vec<i32> = vec![0, 2, 4, 10, 20, 32, 60, 255, 256, -1, i32::MIN, i32::MAX];
+                bare.extend(ESRI_TABLE.iter().map(|r| r.0));
+                for c in bare {
+                    let id = out.oracle_only_id();
+                    out.verdict(&id, &format!("scenario bare-record-code {}", c), round9::oracle_bare_record_code(c));
+                }
+            }
             for _ in 0..(if tier == "thorough" { 20000 } else { 1000 }) {
                 codes.push(rng.next() as i32);
             }
@@ -1006,6 +1021,8 @@ fn cases_for(prop: &str, tier: &str, seed: u64, out: &mut Out) {
             {
                 let id = out.oracle_only_id();
                 out.verdict(&id, "scenario path-trailing", round6::oracle_path_trailing());
+                let id = out.oracle_only_id();
+                out.verdict(&id, "scenario bulk-read-nulls", round9::oracle_bulk_read_with_nulls());
             }
             // one part longer than any block a reader could reasonably buffer (independent encoding)
             for code in [3i32, 13, 23, 8, 18, 28] {
